@@ -24,6 +24,9 @@ def cases(rng, quick, gr):
     # program types that merely resemble tdm (other case, longer names): p-named arrays are ordinary arrays there, passed by value
     for ty in ["TDM", "Tdm", "tdM", "tdmx", "xtdm", "t_dm", "tdm2"]:
         yield {"tag": "near-tdm-type", "text": "name t\nversion 1.0\ntype %s (temporal_modes=2)\nfloat array p0 =\n    0.1, 0.2\nint m = 3\nRgate(p0) | 0\nBSgate(theta=p0, phi=m, l=[p0, 1]) | [0, 1]\nfor int i in 0:2\n    Sgate(p0, i) | i\n" % ty}
+    # integer LITERALS beyond 2**53 (exact integers, not doubles) as option, positional, keyword and list values, declared and listed
+    for big in ["9007199254740993", "12345678901234567", "4611686018427387905", "9223372036854775807", "9007199254740992"]:
+        yield {"tag": "big-int-literal", "text": "name m\nversion 1.0\ntarget dev (seed=%s)\nint k = %s\nOp(%s, a=%s, l=[%s, 1], b=-%s) | 0\nOp(k) | 1\nfor int i in [%s, 3]\n    Op(i) | 2\n" % ((big,) * 7)}
     # statement forms x bracket styles x argument shapes (small exhaustive matrix)
     hdr = "name m\nversion 1.0\n"
     forms = []
